@@ -448,6 +448,10 @@ func libLibExchange(clientMode, serverMode int, perMsgCtx bool) (string, string)
 	// multi-message exchange both ways with history
 	srv.SetReadLimit(-1)
 	cl.SetReadLimit(-1)
+	// what Conn.Read returned belongs to the receiver: every result is kept and compared again after all later reads
+	type keptMsg struct{ got, want []byte }
+	var kept []keptMsg
+	defer func() { kept = nil }()
 	for i := 0; i < 4; i++ {
 		p := historyMsg(i, 800+100*i)
 		for _, dir := range []struct{ from, to *websocket.Conn }{{cl, srv}, {srv, cl}} {
@@ -476,6 +480,12 @@ func libLibExchange(clientMode, serverMode int, perMsgCtx bool) (string, string)
 			rcancel()
 			if err != nil || string(got) != string(p) {
 				return "lib-lib-exchange", fmt.Sprintf("modes %d/%d message %d (per-message read contexts: %v): err=%v", clientMode, serverMode, i, perMsgCtx, err)
+			}
+			kept = append(kept, keptMsg{got, append([]byte(nil), p...)})
+			for k, km := range kept {
+				if string(km.got) != string(km.want) {
+					return "read-result-overwritten-by-later-read", fmt.Sprintf("modes %d/%d: the payload Conn.Read returned for message %d was intact then and differs after %d later reads (first bytes now %q, were %q)", clientMode, serverMode, k, len(kept)-1-k, trunc(string(km.got), 24), trunc(string(km.want), 24))
+				}
 			}
 			if werr := <-errc; werr != nil {
 				return "lib-lib-exchange", fmt.Sprintf("modes %d/%d message %d (per-message read contexts: %v): write failed: %v", clientMode, serverMode, i, perMsgCtx, werr)
